@@ -198,6 +198,8 @@ class NativeContract:
             whens.append((ename, text, bool(self._eval(code, old_env))))
         if exc is not None:
             name = type(exc).__name__
+            if name in getattr(self.c, "may_raise", []):
+                return None                       # tolerated by the contract (partial correctness)
             ok = any(w and (ename == name) for ename, text, w in whens)
             if not ok:
                 return {"stage": "exception", "exception": name, "message": str(exc)[:300],
